@@ -195,6 +195,57 @@ func runC17(c *Ctx) {
 	}
 	c.R.Count("gates in message codecs", nG)
 
+	// ---- C17.fieldorder
+	rule = "C17.fieldorder"
+	c.R.Rule(rule, "E2 containment over field-labelled atoms: every primitive written by an encoder is labelled with the struct field it is loaded from, every primitive read by a decoder with the field its result is stored to; restricted to the fields labelled on both sides, the encoder's sequences of field names are contained in the decoder's at every revision - two same-typed fields written in one order and read in the other are caught although their widths agree")
+	func() {
+		fcls := fieldClassifier(p)
+		th := thresholds(p)
+		for _, mp := range pairs {
+			key := "fieldorder/" + mp.name
+			seen := map[string]bool{}
+			bad := false
+			nval := 0
+			for _, r := range revisionSamples(p, false) {
+				sig := gateSignature(th, r)
+				if seen[sig] {
+					continue
+				}
+				seen[sig] = true
+				o := langOpts{p: p, classify: fcls, revision: r}
+				ea, da := buildLang(mp.enc, o), buildLang(mp.dec, o)
+				if len(ea.undec)+len(da.undec) > 0 {
+					continue // reported by C17.shape
+				}
+				// keep only labels present on both sides
+				el, dl := labelsOf(ea), labelsOf(da)
+				keep := map[string]bool{}
+				for l := range el {
+					if dl[l] {
+						keep[l] = true
+					}
+				}
+				keep["*"] = true
+				project(ea, keep)
+				project(da, keep)
+				addWildcards(da)
+				dd := da.determinize()
+				if dd.isEmpty() {
+					continue
+				}
+				nval++
+				if ok, w := contained(ea.determinize(), dd); !ok {
+					bad = true
+					c.R.Bad(rule, key, cfg, p.Pos(mp.enc.Pos()), sprintf("revision %d: the encoder writes the fields in the order [%s], which the decoder never reads in that order (two fields exchanged on one side)", r, strings.Join(w, " ")))
+					break
+				}
+			}
+			if !bad {
+				c.R.Ok(rule, key, cfg, p.Pos(mp.enc.Pos()), sprintf("field order agrees under %d gate valuations", nval))
+			}
+		}
+	}()
+
 	// ---- C17.fields
 	rule = "C17.fields"
 	c.R.Rule(rule, "for every message type, the set of struct fields the encoder reads equals the set the decoder writes: a field decoded but never encoded (or vice versa) cannot round-trip")
@@ -526,4 +577,44 @@ func paramFedByParam(root, helper *ssa.Function, pr *ssa.Parameter) bool {
 		}
 	}
 	return n > 0
+}
+
+func labelsOf(a *nfa) map[string]bool {
+	out := map[string]bool{}
+	for _, m := range a.tr {
+		for l := range m {
+			out[l] = true
+		}
+	}
+	return out
+}
+
+// project relabels every transition whose label is not kept as the wildcard "*".
+func project(a *nfa, keep map[string]bool) {
+	for s, m := range a.tr {
+		for l, ts := range m {
+			if keep[l] {
+				continue
+			}
+			for _, t := range ts {
+				a.addTr(s, "*", t)
+			}
+			delete(m, l)
+		}
+	}
+}
+
+// addWildcards lets the decoder read any labelled field where the encoder
+// wrote a value that comes from no field (constants, terminators).
+func addWildcards(a *nfa) {
+	for s, m := range a.tr {
+		for l, ts := range m {
+			if l == "*" {
+				continue
+			}
+			for _, t := range ts {
+				a.addTr(s, "*", t)
+			}
+		}
+	}
 }
